@@ -113,6 +113,7 @@ func runC02(c *Ctx) {
 			msgC := mon.NewCanary(msg, 16)
 			if pi := mon.Guard(func() {
 				ct, err = sm2.Encrypt(key.pub(), msgC.Slice(), rd, mode)
+				keep("sm2.Encrypt", ct)
 				ct2, err2 = sm2.Encrypt(key.pub(), msg, rd2, mode)
 			}); pi != nil {
 				rep.Violation("C02/Encrypt/panic/"+pi.Func+"/len="+ptLenClass(n), pi.Value, w)
@@ -160,7 +161,7 @@ func runC02(c *Ctx) {
 			}
 			// round trip through gmsm
 			var back []byte
-			if pi := mon.Guard(func() { back, err = sm2.Decrypt(key.priv(), ct, mode) }); pi != nil {
+			if pi := mon.Guard(func() { back, err = sm2.Decrypt(key.priv(), ct, mode); keep("sm2.Decrypt", back) }); pi != nil {
 				rep.Violation("C02/Decrypt/panic/"+pi.Func+"/valid-ciphertext", pi.Value, w)
 			} else if err != nil || !bytes.Equal(back, msg) {
 				rep.Violation("C02/Decrypt/round-trip-fails/"+order+"/"+key.cls, fmt.Sprintf("err=%v got %s", err, mon.Hex(back)), w)
@@ -188,12 +189,12 @@ func runC02(c *Ctx) {
 			w := map[string]interface{}{"d": key.d.Text(16), "msg": mon.Hex(msg), "form": "asn1", "stream_seed": seed}
 			var a, back, back2 []byte
 			var err error
-			if pi := mon.Guard(func() { a, err = sm2.EncryptAsn1(key.pub(), msg, mkReader()) }); pi != nil {
+			if pi := mon.Guard(func() { a, err = sm2.EncryptAsn1(key.pub(), msg, mkReader()); keep("sm2.EncryptAsn1", a) }); pi != nil {
 				rep.Violation("C02/EncryptAsn1/panic/"+pi.Func, pi.Value, w)
 			} else if err != nil {
 				rep.Violation("C02/EncryptAsn1/error", err.Error(), w)
 			} else {
-				if pi := mon.Guard(func() { back, err = sm2.DecryptAsn1(key.priv(), a) }); pi != nil {
+				if pi := mon.Guard(func() { back, err = sm2.DecryptAsn1(key.priv(), a); keep("sm2.DecryptAsn1", back) }); pi != nil {
 					rep.Violation("C02/DecryptAsn1/panic/"+pi.Func+"/valid", pi.Value, w)
 				} else if err != nil || !bytes.Equal(back, msg) {
 					rep.Violation("C02/DecryptAsn1/round-trip-fails/"+key.cls, fmt.Sprint(err), w)
